@@ -1406,6 +1406,78 @@ func sharedRefKind(t types.Type, d int) string {
 	return ""
 }
 
+// growLoopUnavoidable: in caller, every store to Mast.size from which the loop around cs can be reached is followed by the
+// loop's test on every path to a successful return.
+func growLoopUnavoidable(c *Ctx, caller *ssa.Function, cs ssa.CallInstruction) {
+	P := c.P
+	loop := map[*ssa.BasicBlock]bool{}
+	for _, b := range caller.Blocks {
+		if b == cs.Block() || (ir.CanReach(b, cs.Block()) && ir.CanReach(cs.Block(), b)) {
+			loop[b] = true
+		}
+	}
+	headers := map[*ssa.BasicBlock]bool{}
+	for b := range loop {
+		for _, p := range b.Preds {
+			if !loop[p] {
+				headers[b] = true
+			}
+		}
+	}
+	if len(headers) == 0 {
+		return
+	}
+	ei := ir.ErrorResultIndex(caller.Signature)
+	for _, b := range caller.Blocks {
+		for _, ins := range b.Instrs {
+			base, f, st, ok := mastFieldStore(ins)
+			if !ok || f != "size" || loop[b] {
+				continue
+			}
+			if _, local := ir.ResolveCell(base).(*ssa.Alloc); local {
+				continue
+			}
+			reachesLoop := false
+			for h := range headers {
+				if ir.CanReach(b, h) {
+					reachesLoop = true
+				}
+			}
+			if !reachesLoop {
+				continue // the size is updated after the loop (Insert counts the entry last)
+			}
+			// search from the store's block, not entering a loop header
+			seen := map[*ssa.BasicBlock]bool{b: true}
+			work := []*ssa.BasicBlock{b}
+			var bad *ssa.Return
+			for len(work) > 0 && bad == nil {
+				x := work[0]
+				work = work[1:]
+				if x != b || true {
+					if r, isRet := x.Instrs[len(x.Instrs)-1].(*ssa.Return); isRet && (x != b || true) {
+						if ei >= 0 && ei < len(r.Results) && ir.IsNilConst(r.Results[ei]) {
+							bad = r
+						}
+					}
+				}
+				for _, s2 := range x.Succs {
+					if headers[s2] || seen[s2] {
+						continue
+					}
+					seen[s2] = true
+					work = append(work, s2)
+				}
+			}
+			if bad != nil {
+				c.Violation(caller, P.InstrPos(bad), "success return between the size update and the height loop",
+					"after "+ir.FuncName(caller)+" has changed Mast.size (at "+P.InstrPos(st)+") a successful return is reachable without evaluating the test of the loop that adjusts the height: whatever decided to skip the loop was computed from the old size or from the node as it was before the change, so a tree can keep a height its new size no longer justifies — equal contents persist to different roots")
+			} else {
+				c.OK(P.InstrPos(st), "size update in "+ir.FuncName(caller)+" is followed by the height loop", "every successful return after it passes the loop's test", false)
+			}
+		}
+	}
+}
+
 // ---- GROWLOOP ---------------------------------------------------------------------------------------------
 
 func runGROWLOOP(c *Ctx) {
@@ -1494,6 +1566,10 @@ func runGROWLOOP(c *Ctx) {
 			}
 			if inCycle(cs.Block()) {
 				c.OK(P.InstrPos(cs), what, "inside a loop: repeated until the height rule is satisfied", false)
+				// … and the loop's test is evaluated after every change of the size that precedes it: no successful
+				// return lies between the size update and the loop (adv16-B-a1: Delete decided *before* removing the
+				// entry that "the height cannot change" — with the size one too high — and returned before the loop)
+				growLoopUnavoidable(c, caller, cs)
 			} else {
 				verb := "grow"
 				if d < 0 {
